@@ -1,10 +1,11 @@
 #!/bin/bash
 # thorough_all.sh [seed]: thorough tier of every claimed property, evidence into /verif/evidence_thorough
-# (run from a snapshot of /verif, e.g. under `vp run`: the harness of the snapshot is used, so the live one may be edited meanwhile)
+# (run from a snapshot of /verif, e.g. under `vp run`: the harness of the snapshot is used, so the live one may be edited
+# meanwhile - but not the rewriter or the driver, whose binaries under /verif/bin are shared)
 HERE=$(cd "$(dirname "$0")/.." && pwd)
 cd /verif
 export VERIF_SEED=${1:-2027} VERIF_EVIDENCE_DIR=/verif/evidence_thorough VERIF_HARNESS=$HERE/harness
-for p in C20 C15 C06 C07 C08 C16 C04 C19; do
+for p in ${THOROUGH_PROPS:-C20 C15 C06 C07 C08 C16 C04 C19}; do
   echo "=== $p $(date +%H:%M:%S)"
   bin/check $p thorough 2>&1 | grep -E "^(VIOLATION|SUMMARY|HARNESS|KNOWN|NOTE|  class)" | cut -c1-400
 done
